@@ -512,8 +512,8 @@ var realStores = map[string]*realStore{}
 // openRealStore builds a store in the given mode holding documents 8.1, 9.1, 10.1 (abstract times) in a
 // sealed fraction, restarts it (maturity is decided at load time by the `.immature` marker that retention
 // removes when it first deletes a fraction) and waits for the maintenance loop to publish OldestCT.
-func openRealStore(mode string, mature bool) (*realStore, error) {
-	key := fmt.Sprintf("%s/%v", mode, mature)
+func openRealStore(mode string, mature bool, oct int64) (*realStore, error) {
+	key := fmt.Sprintf("%s/%v/%d", mode, mature, oct)
 	if s, ok := realStores[key]; ok {
 		return s, nil
 	}
@@ -557,6 +557,11 @@ func openRealStore(mode string, mature bool) (*realStore, error) {
 	if e2.FM().Mature() != mature {
 		return nil, fmt.Errorf("store maturity is %v, wanted %v", e2.FM().Mature(), mature)
 	}
+	if oct == 0 {
+		// the state between FracManager.Load and the end of the maintenance loop's first pass: OldestCT is
+		// still unknown (Load does not compute it). The loop of this store sleeps for 24 h, so it stays so.
+		e2.FM().OldestCT.Store(0)
+	}
 	realStores[key] = s
 	return s, nil
 }
@@ -597,12 +602,12 @@ func (f *realClient) Fetch(ctx context.Context, in *pb.FetchRequest, o ...grpc.C
 }
 
 func runRealStore(c *Case) (Outcome, error) {
-	s, err := openRealStore(c.Store.Mode, c.Store.Mature)
+	s, err := openRealStore(c.Store.Mode, c.Store.Mature, c.Store.Oct)
 	if err != nil {
 		return Outcome{}, err
 	}
-	if c.Store.Oct != storeOCT {
-		return Outcome{}, fmt.Errorf("case wants OldestCT %d, the driver can only stand for %d", c.Store.Oct, storeOCT)
+	if c.Store.Oct != storeOCT && c.Store.Oct != 0 {
+		return Outcome{}, fmt.Errorf("case wants OldestCT %d, the driver can only stand for %d or 0 (unknown)", c.Store.Oct, storeOCT)
 	}
 	r := newRun(c)
 	r.query = "k:x"
